@@ -1,6 +1,7 @@
 package proxy
 
 import (
+	"bufio"
 	"bytes"
 	"errors"
 	gkm "github.com/go-kit/kit/metrics"
@@ -106,7 +107,15 @@ func newWSHandler(host string, dial dialFunc, conn gkm.Gauge) http.Handler {
 		if !bytes.HasPrefix(b, wsSwitchingProtocols) {
 			firstLine := strings.SplitN(string(b), "\n", 1)
 			log.Printf("[INFO] Websocket upgrade failed for %s: %s", r.URL, firstLine)
-			http.Error(w, "websocket upgrade failed", http.StatusInternalServerError)
+			// the upstream has answered with an ordinary response: the
+			// client gets all of it, not only what came with the first read
+			out.SetReadDeadline(time.Time{})
+			rest := io.TeeReader(out, in)
+			resp, err := http.ReadResponse(bufio.NewReader(io.MultiReader(bytes.NewReader(b), rest)), r)
+			if err == nil {
+				io.Copy(io.Discard, resp.Body)
+				resp.Body.Close()
+			}
 			return
 		}
 
